@@ -247,6 +247,16 @@ func (e *Engine) atomicRMW(st *State, kind string, p PtrV, et types.Type, a, b V
 			return v
 		}
 	}
+	// one atomic operation is one access for the stall hook
+	if e.hookObj != nil && !e.inAtomicOp {
+		for _, al := range p.Alts {
+			if al.Obj != nil {
+				e.hookTick(st, al.Obj, site, true)
+			}
+		}
+		e.inAtomicOp = true
+		defer func() { e.inAtomicOp = false }()
+	}
 	switch kind {
 	case "load":
 		return e.Load(st, p, et, site)
